@@ -17,7 +17,10 @@ C10 — numbers mean what they say.  Theorems over `Model/Num.lean` and the gene
 * printing: `to_string_int`
 * Go constant folding: `const_operands_faithful_of_fits`, `const_operands_unfaithful` (integers);
   `float_const_faithful_if_exact_operands`, `float_const_two_ops_unfaithful`, `float_const_f32_display_unfaithful`,
-  `float_const_f64_display_unfaithful`, `float_const_rejected`, `const_kinds`, `float_print_identifies_f64` (floats)
+  `float_const_f64_display_unfaithful`, `float_const_rejected`, `const_kinds`, `float_print_identifies_f64` (floats);
+  the KIND of a printed float literal: `float_const_integral_suffix_needed` (all whole operands), `truncated_quotient_differs`,
+  `float_print_always_float_kind`, `float_print_whole_value` (over `Gen/FloatPrint.integralSuffix`),
+  `float_const_integer_kind_unfaithful`, `go_float_token_forms`
 -/
 namespace Goml.Props.C10
 open Goml.Num
@@ -797,6 +800,181 @@ theorem float_print_identifies_f64 :
     (Gen.FloatPrint.literalText.all fun r => Goml.GoConst.printIdentifiesF64 r.2) = true ∧
     Gen.FloatPrint.integralSuffix = ".0" := by
   decide
+
+section Kind
+open Goml.GoConst
+
+/-! ### the KIND of a printed float literal (integer vs floating-point constant) -/
+
+theorem takeWhile_all_eq (p : Char → Bool) (xs : List Char) (h : ∀ c ∈ xs, p c = true) :
+    xs.takeWhile p = xs ∧ xs.dropWhile p = [] := by
+  induction xs with
+  | nil => simp
+  | cons x xs ih =>
+    have hx : p x = true := h x (by simp)
+    have := ih (fun c hc => h c (by simp [hc]))
+    simp [hx, this.1, this.2]
+
+theorem takeWhile_stop (p : Char → Bool) (xs : List Char) (y : Char) (ys : List Char)
+    (hx : ∀ c ∈ xs, p c = true) (hy : p y = false) :
+    (xs ++ y :: ys).takeWhile p = xs ∧ (xs ++ y :: ys).dropWhile p = y :: ys := by
+  induction xs with
+  | nil => simp [hy]
+  | cons x xs ih =>
+    have hx' : p x = true := hx x (by simp)
+    have := ih (fun c hc => hx c (by simp [hc]))
+    simp [hx', this.1, this.2]
+
+theorem digit_not_mark {c : Char} (h : isDigit c = true) : c ≠ '.' ∧ c ≠ 'e' ∧ c ≠ 'E' := by
+  refine ⟨?_, ?_, ?_⟩ <;> (intro hc; subst hc; revert h; decide)
+
+/-- a token of digits only is of INTEGER kind -/
+theorem isFloatText_digits (cs : List Char) (h : ∀ c ∈ cs, isDigit c = true) : isFloatText cs = false := by
+  unfold isFloatText
+  rw [List.any_eq_false]
+  intro c hc
+  have := digit_not_mark (h c hc)
+  simp [this.1, this.2.1, this.2.2]
+
+
+/-- Rust's `{}` of a whole number, as Go reads it: an integer constant of that value -/
+theorem litValL_whole (n : Nat) : litValL (natToDec n) = .ok (.int (n : Int)) := by
+  unfold litValL
+  rw [isFloatText_digits _ (natToDec_digits n), goIntToken_natToDec]
+  rfl
+
+theorem isFloatText_suffixed (cs : List Char) : isFloatText (cs ++ ['.', '0']) = true := by
+  unfold isFloatText
+  rw [List.any_append]
+  simp
+
+/-- … and with the `.0` the printer appends: a floating-point constant of the same value -/
+theorem litValL_whole_suffixed (n : Nat) :
+    litValL (natToDec n ++ ['.', '0']) = .ok (.flt ⟨((n * 10 : Nat) : Int), 10⟩) := by
+  have hd := natToDec_digits n
+  have hE : ∀ c ∈ natToDec n ++ ['.', '0'], (fun c : Char => !(c == 'e' || c == 'E')) c = true := by
+    intro c hc
+    rcases List.mem_append.mp hc with h | h
+    · have := digit_not_mark (hd c h); simp [this.2.1, this.2.2]
+    · simp at h; rcases h with h | h <;> subst h <;> decide
+  have hP : ∀ c ∈ natToDec n, (fun c : Char => c != '.') c = true := by
+    intro c hc; have := digit_not_mark (hd c hc); simp [this.1]
+  unfold litValL
+  rw [isFloatText_suffixed]
+  simp only [if_true, ofGoFloatText]
+  rw [(takeWhile_all_eq _ _ hE).1, (takeWhile_all_eq _ _ hE).2]
+  simp only [ofMantissa]
+  rw [(takeWhile_stop _ (natToDec n) '.' ['0'] hP (by decide)).1, (takeWhile_stop _ (natToDec n) '.' ['0'] hP (by decide)).2]
+  have h0 : IsDigits ['0'] := by decide
+  simp only [natToDec_isDigits n, h0, or_true, true_and, natToDec_ne_nil n, false_and, not_false_eq_true, if_true]
+  rw [decVal_append, decVal_natToDec]
+  rfl
+
+
+theorem litVal_ofList (cs : List Char) : litVal (String.ofList cs) = litValL cs := by
+  simp [litVal]
+
+/-- a truncated quotient is the quotient only when the division is exact -/
+theorem truncated_quotient_differs (a b : Nat) (h : ¬ b ∣ a) :
+    (Q.ofInt ((a / b : Nat) : Int)).eqv ⟨(a : Int), b⟩ = false := by
+  unfold Q.eqv Q.ofInt
+  simp only [beq_eq_false_iff_ne, ne_eq]
+  intro he
+  apply h
+  have : a / b * b = a := by
+    have h2 : ((a / b * b : Nat) : Int) = (a : Int) := by push_cast; simpa using he
+    exact_mod_cast h2
+  exact ⟨a / b, by rw [Nat.mul_comm]; exact this.symm⟩
+
+/-- **float_const_integral_suffix_needed** — for ALL whole operands `a`, `b > 0`: printed as Rust's `{}` gives them
+    (`7`, `2`), the quotient is a Go INTEGER constant expression and is truncated (`7 / 2` is `3`); with the `.0` that
+    `go_float_literal` appends (`7.0 / 2.0`) it is a floating-point constant expression whose exact value is `a / b`.
+    The two agree only when `b` divides `a` (`truncated_quotient_differs`).  Standing alone, or beside a variable,
+    both spellings denote the same float — only a literal-literal operator shows the difference. -/
+theorem float_const_integral_suffix_needed (a b : Nat) (hb : 0 < b) :
+    constEval (.bin "/" (.lit (String.ofList (natToDec a))) (.lit (String.ofList (natToDec b))))
+      = .ok (.int ((a / b : Nat) : Int)) ∧
+    ∃ q, constEval (.bin "/" (.lit (String.ofList (natToDec a ++ ['.', '0']))) (.lit (String.ofList (natToDec b ++ ['.', '0']))))
+      = .ok (.flt q) ∧ q.eqv ⟨(a : Int), b⟩ = true := by
+  constructor
+  · simp only [constEval, litVal_ofList, litValL_whole]
+    simp [constBin]
+    omega
+  · simp only [constEval, litVal_ofList, litValL_whole_suffixed]
+    simp only [constBin, CVal.toQ, Q.div?]
+    have h1 : ¬ (((b * 10 : Nat) : Int) = 0) := by omega
+    have h2 : ((b * 10 : Nat) : Int) > 0 := by omega
+    simp only [String.reduceEq, if_false, if_true, h1, h2]
+    refine ⟨_, rfl, ?_⟩
+    unfold Q.eqv
+    simp only [beq_iff_eq]
+    have h3 : (((b * 10 : Nat) : Int)).toNat = b * 10 := by omega
+    rw [h3]
+    push_cast
+    simp only [Int.mul_comm, Int.mul_left_comm]
+
+/-- **float_print_always_float_kind** (over the generated `Gen/FloatPrint.integralSuffix`) — whatever text Rust's
+    formatting produced, what `go_float_literal` prints is a token of floating-point kind: it has a `.` or an exponent
+    already, or gets the suffix, and the suffix has a `.`.  (`isFloatText` is Go's kind test AND the printer's
+    `text.contains(['.', 'e', 'E'])`.)  With an empty suffix — or one without `.` — this fails. -/
+theorem float_print_always_float_kind (text : List Char) :
+    isFloatText (spellFloat Gen.FloatPrint.integralSuffix.toList text) = true := by
+  unfold spellFloat
+  split
+  · assumption
+  · unfold isFloatText
+    rw [List.any_append]
+    have : (Gen.FloatPrint.integralSuffix.toList.any fun c => c == '.' || c == 'e' || c == 'E') = true := by decide
+    simp [this]
+
+/-- a whole number printed through `go_float_literal` is read by Go as a floating-point constant of that value -/
+theorem float_print_whole_value (n : Nat) :
+    litValL (spellFloat Gen.FloatPrint.integralSuffix.toList (natToDec n)) = .ok (.flt ⟨((n * 10 : Nat) : Int), 10⟩) := by
+  unfold spellFloat
+  rw [isFloatText_digits _ (natToDec_digits n)]
+  exact litValL_whole_suffixed n
+
+/-- **float_const_integer_kind_unfaithful** — concrete, on the binary32 model: `7.0f32 / 2.0f32` means 3.5
+    (0x40600000).  Printed `7.0 / 2.0` Go computes that; printed `7 / 2` (no suffix) Go computes the INTEGER quotient 3
+    (0x40400000), `-7 / 2` is −3 (truncation toward zero), `1 / 2` is 0.  An exponent also makes the token
+    floating-point (`7e0 / 2e0` is 3.5), and a lone `7` converts to the same float as `7.0`. -/
+theorem float_const_integer_kind_unfaithful :
+    ((litBits "float32" "7.0").bind fun a => (litBits "float32" "2.0").bind fun b => ieeeBin 24 8 "/" a b) = some 0x40600000 ∧
+    (goFloatConst "float32" (.bin "/" (.lit "7.0") (.lit "2.0"))).toOption = some 0x40600000 ∧
+    (goFloatConst "float32" (.bin "/" (.lit "7") (.lit "2"))).toOption = some 0x40400000 ∧
+    (goFloatConst "float32" (.bin "/" (.neg (.lit "7")) (.lit "2"))).toOption = some 0xc0400000 ∧
+    (goFloatConst "float32" (.bin "/" (.neg (.lit "7.0")) (.lit "2.0"))).toOption = some 0xc0600000 ∧
+    (goFloatConst "float64" (.bin "/" (.lit "1") (.lit "2"))).toOption = some 0 ∧
+    (goFloatConst "float32" (.bin "/" (.lit "7e0") (.lit "2e0"))).toOption = some 0x40600000 ∧
+    (goFloatConst "float32" (.bin "/" (.lit "7") (.lit "2.0"))).toOption = some 0x40600000 ∧
+    (goFloatConst "float32" (.lit "7")).toOption = (goFloatConst "float32" (.lit "7.0")).toOption := by
+  decide
+
+/-- **go_float_token_forms** — the decimal forms of Go's floating-point literal grammar as `ofGoFloatText` reads them
+    (mantissa with either side of the `.` empty, exponent with and without sign, either case of `e`), what is not a
+    token, and the octal reading of an integer token with a leading zero -/
+theorem go_float_token_forms :
+    (ofGoFloatText "7.".toList).map (Q.eqv ⟨7, 1⟩) = some true ∧
+    (ofGoFloatText ".5".toList).map (Q.eqv ⟨1, 2⟩) = some true ∧
+    (ofGoFloatText "1e3".toList).map (Q.eqv ⟨1000, 1⟩) = some true ∧
+    (ofGoFloatText "1.5E+3".toList).map (Q.eqv ⟨1500, 1⟩) = some true ∧
+    (ofGoFloatText "25e-2".toList).map (Q.eqv ⟨1, 4⟩) = some true ∧
+    (ofGoFloatText "09.5".toList).map (Q.eqv ⟨19, 2⟩) = some true ∧
+    ofGoFloatText ".".toList = none ∧ ofGoFloatText "1e".toList = none ∧ ofGoFloatText "e5".toList = none ∧
+    ofGoFloatText "1.2.3".toList = none ∧ ofGoFloatText "1e1.5".toList = none ∧
+    (litVal "010").toOption.bind CVal.toQ = some ⟨8, 1⟩ ∧ (litVal "08").toOption.bind CVal.toQ = none ∧
+    (goFloatConst "float32" (.lit "1e39")).toOption = none ∧
+    (goFloatConst "float64" (.lit "1e39")).toOption = some 0x48078287f49c4a1d := by
+  decide
+
+
+/-- non-vacuity: 2 does not divide 7, so the integer-kind quotient `7 / 2 = 3` is not the number 7/2 -/
+example : (Q.ofInt ((7 / 2 : Nat) : Int)).eqv ⟨7, 2⟩ = false := truncated_quotient_differs 7 2 (by decide)
+example : ∃ q, constEval (.bin "/" (.lit (String.ofList (natToDec 7 ++ ['.', '0']))) (.lit (String.ofList (natToDec 2 ++ ['.', '0']))))
+    = .ok (.flt q) ∧ q.eqv ⟨7, 2⟩ = true := (float_const_integral_suffix_needed 7 2 (by decide)).2
+example : natToDec 7 ++ ['.', '0'] = ['7', '.', '0'] := by rw [natToDec_small 7 (by decide)]; decide
+
+end Kind
 
 /-! ### the generated tables -/
 
